@@ -191,7 +191,7 @@ def run(ck):
         if tr:
             dup = next((e for e in tr if e["c"] == "fcntl" and e.get("cmd") == 1030), None)
             if dup is not None:
-                t2 = f"let s := build {mk} in let '(bad, n) := agree_trace s [({dup['fd']}%Z, ROOT)] {trace_to_coq(tr)} 0 0 in [Z.of_N bad; Z.of_N n]"
+                t2 = f"let s := build {mk} in let '(bad, n) := agree_trace s [] [({dup['fd']}%Z, ROOT)] {trace_to_coq(tr)} 0 0 in [Z.of_N bad; Z.of_N n]"
                 kcases.append((len(kcases), t2, desc, tr))
     if not ck.proof_broken:
         evals, cerrs = coq_eval([(c[0], c[1]) for c in cases], header="From PV Require Import FSModel FSProofs.", tag="c01")
